@@ -157,6 +157,10 @@ write_prototype_for(ostream &out, InterfaceMaker::Function *func) {
 
     if (output_function_names) {
       out << "EXPORT_FUNC ";
+    } else {
+      // This must match the linkage of the definition written by
+      // write_function_instance().
+      out << "static ";
     }
     write_function_header(out, func, remap, false);
     out << ";\n";
